@@ -17,7 +17,7 @@ def safely(rep, what, f, *a):
 
 
 RULE = ("Twp/Rge numbers (1-3 digits) x N/S x E/W x documented spellings x presence/absence of each direction letter x "
-        "default_ns/default_ew via config string, keyword and MasterConfig x ocr_scrub, embedded in a description with "
+        "default_ns/default_ew via config string, keyword and MasterConfig (also each axis from a different source) x ocr_scrub, embedded in a description with "
         "neighbours (start, ', ', newline, Sec, aliquots such as 'N2 W2', 'Lot 2,'); non-trivial = spelling differs from "
         "the canonical 'T154N-R97W'; distinct by (text, channel)")
 TRUSTED = ["C08: the lexical part (what twprge_regex / pp_twprge_* match) is executed on the regenerated patterns for every "
@@ -93,7 +93,18 @@ def check_missing(rep, t, ns, r, ew, sp, has_ns, has_ew, tail, channel, lead='')
     canon = f"T{t}{ns}-R{r}{ew}"
     old = (MasterConfig.default_ns, MasterConfig.default_ew)
     try:
-        if channel == 'config':
+        if isinstance(channel, tuple):
+            # each axis from a source of its own (config string / parse keyword / MasterConfig); an axis that does not come
+            # from MasterConfig finds the opposite value there, which must not win
+            src_ns, src_ew = channel
+            opp = {'n': 's', 's': 'n', 'e': 'w', 'w': 'e'}
+            MasterConfig.default_ns = use_ns if src_ns == 'master' else opp[use_ns]
+            MasterConfig.default_ew = use_ew if src_ew == 'master' else opp[use_ew]
+            cfg = ','.join(v for v, src in ((use_ns, src_ns), (use_ew, src_ew)) if src == 'config')
+            kw = {k: v for k, v, src in (('default_ns', use_ns, src_ns), ('default_ew', use_ew, src_ew)) if src == 'keyword'}
+            d = pytrs.PLSSDesc(text, config=cfg or None, wait_to_parse=True)
+            d.parse(**kw)
+        elif channel == 'config':
             d = pytrs.PLSSDesc(text, config=f"{use_ns},{use_ew}")
         elif channel == 'keyword':
             d = pytrs.PLSSDesc(text, wait_to_parse=True)
@@ -135,6 +146,11 @@ def run(ctx):
         safely(rep, 'explicit', check_explicit, t, ns, rg, ew, sp, tail, 's' if ns == 'N' else 'n', 'e' if ew == 'W' else 'w', channel)
         msp, hn, he = r.choice(missing_dir_spellings(t, ns, rg, ew))
         safely(rep, 'missing', check_missing, t, ns, rg, ew, msp, hn, he, tail, channel)
+        # each axis' default from a source of its own
+        mixed = (r.choice(['config', 'keyword', 'master']), r.choice(['config', 'keyword', 'master']))
+        safely(rep, 'missing-mixed-sources', check_missing, t, ns, rg, ew, msp, hn, he, tail, mixed)
+        rep.count()
+        rep.dist('c08_mixed_sources', '/'.join(mixed))
         if i % 3 == 0:
             # the same Twp/Rge once written out in full and once with a direction missing: the filled-in one is still reported
             lead = f"T{t}{ns}-R{rg}{ew} Sec {r.range(1, 36)}: ALL, "
